@@ -71,3 +71,29 @@ PY
 build_instr() {
   (cd $ENGINE && go build -modfile="$W/engine.mod" -overlay "$2" -tags "verif instr" -o "$W/$3" ./cmd/$1) || { echo "HARNESS-ERROR: instrumented build of $1 failed" >&2; exit 2; }
 }
+
+# race_pass : the C11 harness bodies free running under the race detector against the
+# UN-instrumented processing package (overlay holds only the virtual runtime packages)
+race_pass() {
+  cat > "$W/rt-overlay.json" <<EOT
+{"Replace": {"$REPO/zzverif/vsrt/vsrt.go": "$ENGINE/overlay/vsrt.go.src", "$REPO/zzverif/vsync/vsync.go": "$ENGINE/overlay/vsync.go.src"}}
+EOT
+  (cd $ENGINE && go build -race -modfile="$W/engine.mod" -overlay "$W/rt-overlay.json" -tags "verif instr" -o "$W/pipemc-race" ./cmd/pipemc) || { echo "HARNESS-ERROR: -race build failed" >&2; exit 2; }
+  export VERIF_RACE_RESULT="$W/race.json"
+  GORACE="halt_on_error=0 exitcode=66" "$W/pipemc-race" race 2> "$W/race.log"
+  local rc=$?
+  if grep -q "WARNING: DATA RACE" "$W/race.log"; then
+    mkdir -p /verif/replays/C11; cp "$W/race.log" /verif/replays/C11/$VERIF_TIER-race.log
+    python3 - "$W/race.json" /verif/replays/C11/$VERIF_TIER-race.log <<'PY'
+import json, sys
+try: d = json.load(open(sys.argv[1]))
+except Exception: d = {"runs": 0, "outcomes_matching_reference": 0}
+n = open(sys.argv[2]).read().count("WARNING: DATA RACE")
+d.update({"class": "data-race", "violations": d.get("violations", 0) + 1, "messages": ["race detector reported %d data race(s); report: %s" % (n, sys.argv[2])] + d.get("messages", [])[:3]})
+json.dump(d, open(sys.argv[1], "w"))
+PY
+  elif [ $rc -ne 0 ]; then
+    cat "$W/race.log" >&2; echo "HARNESS-ERROR: free-running pass crashed (exit $rc)" >&2; exit 2
+  fi
+  tail -1 "$W/race.log" >&2
+}
